@@ -32,10 +32,22 @@ theorem user_meta_kept (l : List (String × String)) (k : String) (hid fid : Nat
     `<name><suffix>` with the configured TTL (nothing for a `nothing` return) -/
 theorem success_order (cfg : HCfg) (eval : σ → SFrame → σ × EvalRes) (env env' : σ) (f : SFrame)
     (appends : List OutReq) (ret : Ret) (hd : dispatch cfg f = .invoke)
-    (he : eval env f = (env', .ok appends ret)) :
+    (he : eval env f = (env', .ok appends ret))
+    (hs : (appends.map (emit cfg f) ++ retFrames cfg f ret).all storable = true) :
     step cfg eval .running env f =
       (.running, env', appends.map (emit cfg f) ++ retFrames cfg f ret, true) :=
-  success_outputs cfg eval env env' f appends ret hd he
+  success_outputs cfg eval env env' f appends ret hd he hs
+
+/-- all-or-nothing also for frames the store would refuse: if one frame of the call cannot be
+    stored (NUL in its topic, `xs.context` outside the zero context) none of them is emitted -
+    the call fails like a closure error -/
+theorem unstorable_frame_fails_whole_call (cfg : HCfg) (eval : σ → SFrame → σ × EvalRes) (env env' : σ) (f : SFrame)
+    (appends : List OutReq) (ret : Ret) (hd : dispatch cfg f = .invoke)
+    (he : eval env f = (env', .ok appends ret))
+    (hs : (appends.map (emit cfg f) ++ retFrames cfg f ret).all storable = false) :
+    step cfg eval .running env f =
+      (.stopped, env', [unregistered cfg f (some "unstorable output")], true) :=
+  unstorable_output_fails_call cfg eval env env' f appends ret hd he hs
 
 theorem return_frame_shape (cfg : HCfg) (f : SFrame) (j : String) :
     (returnFrame cfg f j).topic = cfg.name ++ cfg.suffix ∧ (returnFrame cfg f j).ttl = cfg.ttl ∧
